@@ -143,6 +143,11 @@ type (
 		writeDelay bool         // delay kcp.flush() for Write() for bulk transfer
 		dup        int          // duplicate udp packets(testing purpose)
 
+		// deadline changes reach every blocked Read / Write
+		dlMu      sync.Mutex    // guards rdChanged and wdChanged
+		rdChanged chan struct{} // closed and replaced whenever the read deadline is set
+		wdChanged chan struct{} // closed and replaced whenever the write deadline is set
+
 		// notifications
 		die          chan struct{} // notify current session has Closed
 		dieOnce      sync.Once
@@ -196,6 +201,8 @@ func newUDPSession(conv uint32, dataShards, parityShards int, l *Listener, conn 
 	sess.chWriteEvent = make(chan struct{}, 1)
 	sess.chSocketReadError = make(chan struct{})
 	sess.chSocketWriteError = make(chan struct{})
+	sess.rdChanged = make(chan struct{})
+	sess.wdChanged = make(chan struct{})
 	sess.chPostProcessing = make(chan sendRequest, devBacklog)
 	sess.remote = remote
 	sess.conn = conn
@@ -277,6 +284,11 @@ func (s *UDPSession) Read(b []byte) (n int, err error) {
 	var c <-chan time.Time
 
 RESET_TIMER:
+	// a deadline set while this call is blocked closes 'changed'
+	s.dlMu.Lock()
+	changed := s.rdChanged
+	s.dlMu.Unlock()
+
 	// deadline for current reading operation
 	if trd, ok := s.rd.Load().(time.Time); ok && !trd.IsZero() {
 		if timeout == nil {
@@ -343,17 +355,7 @@ RESET_TIMER:
 		// next data packet arrives.
 		select {
 		case <-s.chReadEvent:
-			if timeout != nil {
-				if !timeout.Stop() {
-					select {
-					case <-timeout.C:
-					default:
-					}
-				}
-			}
-			// the event may announce a deadline set while this call was
-			// blocked without one: always re-read the deadline
-			goto RESET_TIMER
+		case <-changed: // reaches every blocked reader, the event above only one
 		case <-c:
 			return 0, errors.WithStack(errTimeout)
 		case <-s.chSocketReadError:
@@ -361,6 +363,18 @@ RESET_TIMER:
 		case <-s.die:
 			return 0, errors.WithStack(io.ErrClosedPipe)
 		}
+
+		if timeout != nil {
+			if !timeout.Stop() {
+				select {
+				case <-timeout.C:
+				default:
+				}
+			}
+		}
+		// the event may announce a deadline set while this call was
+		// blocked without one: always re-read the deadline
+		goto RESET_TIMER
 	}
 }
 
@@ -373,6 +387,11 @@ func (s *UDPSession) WriteBuffers(v [][]byte) (n int, err error) {
 	var c <-chan time.Time
 
 RESET_TIMER:
+	// a deadline set while this call is blocked closes 'changed'
+	s.dlMu.Lock()
+	changed := s.wdChanged
+	s.dlMu.Unlock()
+
 	if twd, ok := s.wd.Load().(time.Time); ok && !twd.IsZero() {
 		if timeout == nil {
 			timeout = time.NewTimer(time.Until(twd))
@@ -436,17 +455,7 @@ RESET_TIMER:
 		// transmit buffer to become available again.
 		select {
 		case <-s.chWriteEvent:
-			if timeout != nil {
-				if !timeout.Stop() {
-					select {
-					case <-timeout.C:
-					default:
-					}
-				}
-			}
-			// the event may announce a deadline set while this call was
-			// blocked without one: always re-read the deadline
-			goto RESET_TIMER
+		case <-changed: // reaches every blocked writer, the event above only one
 		case <-c:
 			return 0, errors.WithStack(errTimeout)
 		case <-s.chSocketWriteError:
@@ -454,6 +463,18 @@ RESET_TIMER:
 		case <-s.die:
 			return 0, errors.WithStack(io.ErrClosedPipe)
 		}
+
+		if timeout != nil {
+			if !timeout.Stop() {
+				select {
+				case <-timeout.C:
+				default:
+				}
+			}
+		}
+		// the event may announce a deadline set while this call was
+		// blocked without one: always re-read the deadline
+		goto RESET_TIMER
 	}
 }
 
@@ -507,14 +528,30 @@ func (s *UDPSession) RemoteAddr() net.Addr { return s.remote }
 func (s *UDPSession) SetDeadline(t time.Time) error {
 	s.rd.Store(t)
 	s.wd.Store(t)
+	s.deadlineChanged(true, true)
 	s.notifyReadEvent()
 	s.notifyWriteEvent()
 	return nil
 }
 
+// deadlineChanged makes every blocked Read and/or Write re-read its deadline
+func (s *UDPSession) deadlineChanged(read, write bool) {
+	s.dlMu.Lock()
+	if read {
+		close(s.rdChanged)
+		s.rdChanged = make(chan struct{})
+	}
+	if write {
+		close(s.wdChanged)
+		s.wdChanged = make(chan struct{})
+	}
+	s.dlMu.Unlock()
+}
+
 // SetReadDeadline implements the Conn SetReadDeadline method.
 func (s *UDPSession) SetReadDeadline(t time.Time) error {
 	s.rd.Store(t)
+	s.deadlineChanged(true, false)
 	s.notifyReadEvent()
 	return nil
 }
@@ -522,6 +559,7 @@ func (s *UDPSession) SetReadDeadline(t time.Time) error {
 // SetWriteDeadline implements the Conn SetWriteDeadline method.
 func (s *UDPSession) SetWriteDeadline(t time.Time) error {
 	s.wd.Store(t)
+	s.deadlineChanged(false, true)
 	s.notifyWriteEvent()
 	return nil
 }
